@@ -612,6 +612,12 @@ func (g *Gen) loopWriteSet(h *ssa.BasicBlock) (map[string]bool, bool) {
 				}
 			case *ssa.Select:
 				ws["ChanR"] = true
+				for _, st := range x.States {
+					if st.Dir != types.RecvOnly {
+						ws["ChanN"] = true
+						ws["ChanV"] = true
+					}
+				}
 			case *ssa.Next:
 				if r, ok := x.Iter.(*ssa.Range); ok {
 					if mt, ok := r.X.Type().Underlying().(*types.Map); ok {
@@ -702,6 +708,7 @@ func (g *Gen) instr(in ssa.Instruction) {
 		}
 	case *ssa.Go:
 		g.assumed = appendUniq(g.assumed, "join rule: `go` statements are executed as calls at the spawn site")
+		g.goCaptureCheck(x)
 		g.call(x.Common(), x.Pos(), true)
 	case *ssa.Defer:
 		g.defers = append(g.defers, deferred{cond: g.cur, call: x.Common(), pos: x.Pos()})
@@ -769,6 +776,8 @@ func (g *Gen) instr(in ssa.Instruction) {
 		g.setHeap(g.st, "ChanN", "(Array Int Int)", sx("store", g.heap(g.st, "ChanN", "(Array Int Int)"), r, "0"))
 		g.setHeap(g.st, "ChanR", "(Array Int Int)", sx("store", g.heap(g.st, "ChanR", "(Array Int Int)"), r, "0"))
 		g.setHeap(g.st, "Closed", "(Array Int Bool)", sx("store", g.heap(g.st, "Closed", "(Array Int Bool)"), r, "false"))
+		// the buffer size never changes: an uninterpreted function of the reference
+		g.assume(sx("=", sx("chancap", r), g.val(x.Size).T))
 		g.set(x, Val{T: r, S: "Int", G: x.Type()})
 	case *ssa.MakeClosure:
 		r := g.newRef(g.st)
@@ -808,6 +817,11 @@ func (g *Gen) instr(in ssa.Instruction) {
 		ch := g.val(x.Chan)
 		v := g.val(x.X)
 		g.check("nil", "send", sx("not", sx("=", ch.T, "0")), "send on nil channel blocks forever")
+		if g.ct != nil && g.ct.NonBlockingSends {
+			n := sx("select", g.heap(g.st, "ChanN", "(Array Int Int)"), ch.T)
+			r := sx("select", g.heap(g.st, "ChanR", "(Array Int Int)"), ch.T)
+			g.check("block", "send-finds-room-in-the-buffer", sx("<", sx("-", n, r), sx("chancap", ch.T)), "a plain send on a channel whose buffer may be full blocks (the sender never finishes, a joining Wait never returns)")
+		}
 		g.chanSend(g.st, ch.T, g.boxAny(v))
 	case *ssa.Return:
 		g.ret(x)
@@ -1749,11 +1763,21 @@ func (g *Gen) selectStmt(x *ssa.Select) {
 	tup := []Val{{T: idx, S: "Int", G: types.Typ[types.Int]}, {}}
 	var oks []string
 	for i, st := range x.States {
-		if st.Dir != types.RecvOnly {
-			g.bail("select with a send case")
-		}
 		sel := sx("=", idx, fmt.Sprint(i))
 		ch := g.val(st.Chan)
+		if st.Dir != types.RecvOnly {
+			// a send case: it may or may not be the one that proceeds (whether a
+			// receiver or buffer room is there is not modelled); when it is, the value
+			// is appended to the channel's log. It cannot proceed on a nil channel.
+			g.assume(implies(sel, not(sx("=", ch.T, "0"))))
+			v := g.val(st.Send)
+			n := g.heap(g.st, "ChanN", "(Array Int Int)")
+			vs := g.heap(g.st, "ChanV", "(Array Int (Array Int Int))")
+			cnt := g.define("scnt", "Int", sx("select", n, ch.T))
+			g.setHeap(g.st, "ChanV", "(Array Int (Array Int Int))", sx("ite", sel, sx("store", vs, ch.T, sx("store", sx("select", vs, ch.T), cnt, g.boxAny(v))), vs))
+			g.setHeap(g.st, "ChanN", "(Array Int Int)", sx("store", n, ch.T, sx("ite", sel, sx("+", cnt, "1"), cnt)))
+			continue
+		}
 		et := st.Chan.Type().Underlying().(*types.Chan).Elem()
 		rh := g.heap(g.st, "ChanR", "(Array Int Int)")
 		cur := g.define("rcur", "Int", sx("select", rh, ch.T))
@@ -1778,7 +1802,7 @@ func (g *Gen) selectStmt(x *ssa.Select) {
 		okT = or(oks...)
 	}
 	tup[1] = Val{T: okT, S: "Bool", G: types.Typ[types.Bool]}
-	g.assumed = appendUniq(g.assumed, "select: the chosen case is arbitrary among the receive cases whose channel has a value left or is closed (and the default, if any)")
+	g.assumed = appendUniq(g.assumed, "select: the chosen case is arbitrary among the receive cases whose channel has a value left or is closed, the send cases, and the default, if any")
 	g.vals[x] = Val{Tup: tup}
 }
 
@@ -1793,4 +1817,111 @@ func (g *Gen) pow2cFn() string {
 		g.emit("(define-fun pow2c ((n Int)) Int " + t + ")")
 	}
 	return "pow2c"
+}
+
+// goCaptureCheck: the join rule executes a goroutine at its spawn site, which is
+// only faithful if the spawner does not overwrite a variable the goroutine
+// captured by reference while the goroutine may still be running. A captured
+// cell (an Alloc bound into the closure) that the spawning function stores to
+// at a point reachable from the `go` statement (the next loop iteration, or a
+// later statement) without first passing a join is reported as a failed
+// obligation of kind "race". A join is a call of (*sync.WaitGroup).Wait or a
+// channel receive / range over a channel.
+func (g *Gen) goCaptureCheck(x *ssa.Go) {
+	mc, ok := x.Call.Value.(*ssa.MakeClosure)
+	if !ok {
+		return
+	}
+	fn, _ := mc.Fn.(*ssa.Function)
+	isJoin := func(in ssa.Instruction) bool {
+		switch y := in.(type) {
+		case *ssa.UnOp:
+			return y.Op == token.ARROW
+		case *ssa.Select:
+			return y.Blocking
+		case ssa.CallInstruction:
+			if _, isGo := in.(*ssa.Go); isGo {
+				return false
+			}
+			if c := y.Common().StaticCallee(); c != nil && c.Name() == "Wait" && c.Pkg != nil && c.Pkg.Pkg.Path() == "sync" {
+				return true
+			}
+		}
+		return false
+	}
+	// instructions reachable from the go statement without passing a join or
+	// the (re-)execution of the allocation of the captured cell (a variable
+	// declared in the loop body is a new cell in every iteration)
+	blk := x.Block()
+	type pt struct {
+		b    *ssa.BasicBlock
+		from int
+	}
+	idx := 0
+	for i, in := range blk.Instrs {
+		if in == ssa.Instruction(x) {
+			idx = i + 1
+		}
+	}
+	reach := func(stop ssa.Instruction) []ssa.Instruction {
+		seen := map[*ssa.BasicBlock]bool{}
+		var after []ssa.Instruction
+		work := []pt{{blk, idx}}
+		first := true
+		for len(work) > 0 {
+			w := work[len(work)-1]
+			work = work[:len(work)-1]
+			if !first && seen[w.b] {
+				continue
+			}
+			if !first {
+				seen[w.b] = true
+			}
+			first = false
+			stopped := false
+			for _, in := range w.b.Instrs[w.from:] {
+				if isJoin(in) || in == stop {
+					stopped = true
+					break
+				}
+				after = append(after, in)
+			}
+			if stopped {
+				continue
+			}
+			for _, s := range w.b.Succs {
+				work = append(work, pt{s, 0})
+			}
+		}
+		return after
+	}
+	for bi, b := range mc.Bindings {
+		al, ok := b.(*ssa.Alloc)
+		if !ok {
+			continue
+		}
+		name := al.Comment
+		if fn != nil && bi < len(fn.FreeVars) {
+			name = fn.FreeVars[bi].Name()
+		}
+		written := false
+		for _, in := range reach(al) {
+			if st, ok := in.(*ssa.Store); ok && st.Addr == ssa.Value(al) {
+				written = true
+			}
+		}
+		save := g.curPos
+		g.curPos = x.Pos()
+		cond := "true"
+		if written {
+			cond = "false"
+		}
+		nr := g.noRefine
+		g.noRefine = true
+		if written {
+			g.check("race", "go-captured-"+name, cond, "variable "+name+" is captured by reference by a goroutine and written by the spawning function (next loop iteration or a later statement) before any join: the goroutine may read another iteration's value (unsynchronised concurrent access)")
+		}
+		g.noRefine = nr
+		g.curPos = save
+	}
 }
